@@ -13,6 +13,19 @@ At the quiescent point after every event the pid file must exist and hold exactl
 master runs; whenever the file is read in between (every poll of every wait loop) it must be absent or hold exactly
 that; after SIGTERM the master exits and the file is gone.  A second scenario kills the whole server with SIGKILL
 (the pid file stays behind, stale) and starts a new one on the same path: it must boot and the file must name it.
+
+Upgrade histories (SIGUSR2: the master forks a child that re-executes the program; that child, and then the new
+master, are further processes holding - or inheriting - a Pidfile object on the same path):
+
+  start-dir-gone   the server is started from a directory of its own, which is removed / renamed once it runs (a rotated
+                   release directory); then SIGUSR2: the forked child cannot go back to the start directory and the
+                   upgrade fails.  Whatever that child does on its way out, it is not the master: the pid file must
+                   still exist and name the running master, whose workers are still the same processes.
+  hup-new-master   SIGUSR2 (pid file names the old master A, "<pidfile>.2" the new master B), then SIGHUP to B while
+                   A is alive, then TERM / QUIT to B if it is still there: whenever the files are read, <pidfile> is
+                   absent or names A and "<pidfile>.2" never names A; at every quiescent point <pidfile> names A for
+                   as long as A runs.  Whether B survives the HUP is not judged (on the unchanged tree it gives up:
+                   the file it wants names another live process).
 """
 import os
 import signal
@@ -106,6 +119,8 @@ def scenario(run, e4, sc):
     """-> (violations, reason why nothing could be judged | None, info)"""
     if sc["kind"] == "takeover":
         return takeover(run, e4, sc)
+    if sc["kind"] == "upgrade":
+        return upgrade(run, e4, sc)
     wc = sc["class"]
     info = {"events": []}
     settings = {"graceful_timeout": 3, "timeout": 3 if "timeout" in sc["events"] else 10}
@@ -276,13 +291,180 @@ def takeover(run, e4, sc):
         srv.cleanup()
 
 
+class UpgradeWatch(Watch):
+    """Two files while an upgrade is under way: <pidfile> belongs to the old master for as long as it runs,
+    "<pidfile>.2" to the new one.  `poll`: <pidfile> absent or exactly the old master's pid; "<pidfile>.2" absent or a
+    complete pid that is not the old master's (exactly the new master's once that is known)."""
+
+    def __init__(self, e4, srv, path):
+        super().__init__(e4, srv, path)
+        self.new = None
+        self.polls2 = 0
+
+    def poll(self):
+        d = super().poll()
+        d2 = read_file(self.path + ".2")
+        if d2 is not None:
+            self.polls2 += 1
+            ok = d2 != self.want and (d2 == b"%d\n" % self.new if self.new else d2.endswith(b"\n") and d2[:-1].isdigit())
+            if not ok and not any(m.startswith("live-pidfile2") for m, _ in self.v):
+                what = "names-old-master" if d2 == self.want else "wrong-content"
+                self.v.append(("live-pidfile2-%s/%s" % (what, self.event),
+                               "during %s \"%s.2\" held %r; old master %d (alive: %s), new master %s" % (
+                                   self.event, os.path.basename(self.path), d2[:60], self.srv.master_pid,
+                                   self.e4.alive(self.srv.master_pid), self.new)))
+        return d
+
+
+def stop_and_check(run, e4, srv, watch, pidfile, info):
+    """TERM to the (old) master: it exits and its pid file is gone - unless another master has taken over meanwhile."""
+    watch.event = "term"
+    srv.signal(signal.SIGTERM)
+    st = srv.wait_exit(srv.master_pid, 12)
+    info["polls"], info["absent_polls"] = watch.polls, watch.absent_polls
+    if st is None:
+        return "master did not exit within 12 s of SIGTERM"
+    time.sleep(0.1)
+    others = [e["pid"] for e in srv.events() if e["kind"] == "when_ready" and e["pid"] != srv.master_pid and e4.alive(e["pid"])]
+    d = read_file(pidfile)
+    if others:
+        info["masters_left"] = others          # an upgrade went through after all: the file is theirs now
+    elif d is not None:
+        watch.v.append(("live-pidfile-left-after-stop", "master %d exited after SIGTERM (status %r) and left its pid file: %r" % (
+            srv.master_pid, st[0], d[:60])))
+    else:
+        run.count("live_pidfile_removed_at_stop")
+    return None
+
+
+def upgrade(run, e4, sc):
+    """SIGUSR2 histories, see the module text. -> (violations, reason why nothing could be judged | None, info)"""
+    from checks.c14 import find_new_master
+    wc, hist = sc["class"], sc["history"]
+    info = {"events": []}
+    gt = 2
+    settings = {"graceful_timeout": gt, "timeout": 10}
+    if wc == "gthread":
+        settings["threads"] = 2
+    srv = e4.Server("c17u", worker_class=wc, workers=2, bind="unix", settings=settings)
+    pidfile = os.path.join(srv.dir, "master.pid")
+    srv.write_conf(pidfile=pidfile)
+    start_dir = None
+    if hist == "start-dir-gone":
+        start_dir = os.path.join(srv.dir, "current")
+        os.mkdir(start_dir, 0o755)
+        srv.start_cwd = start_dir
+        srv.env["PWD"] = start_dir                  # as a shell would have it
+    try:
+        srv.start()
+        old = srv.master_pid
+        before = srv.wait_workers(2, 25)
+        if not before:
+            return [], "server did not boot: %s" % (srv.stderr()[-300:] or srv.error_log()[-300:]), info
+        watch = UpgradeWatch(e4, srv, pidfile)
+        if not watch.settled(run, "live_pidfile_after_boot"):
+            return watch.v, None, info
+        if hist == "start-dir-gone":
+            try:
+                if os.readlink("/proc/%d/cwd" % old) != start_dir:
+                    return [], "the master does not run in the start directory made for it", info
+            except OSError:
+                return [], "the master's working directory cannot be read", info
+            if sc["how"] == "rmdir":
+                os.rmdir(start_dir)
+            else:
+                os.rename(start_dir, start_dir + ".old")
+            watch.event = "usr2-start-dir-gone"
+            t0 = time.monotonic()
+            srv.signal(signal.SIGUSR2)
+            seen = set()
+
+            def played_out():
+                # the forked child: known from the pre_exec hook, or as a child of the master that is not a worker
+                seen.update(e["pid"] for e in srv.events() if e["kind"] == "pre_exec")
+                seen.update(p for p in srv.children_of(old) if p not in before)
+                return time.monotonic() - t0 > 0.3 and seen and not any(e4.alive(p) for p in seen)
+            # a child that unwinds into the master's code takes up to graceful_timeout to stop "its" workers
+            quick = watch.wait(played_out, gt + 2.5)
+            info["events"].append(("usr2-start-dir-gone", sc["how"], bool(quick), sorted(seen)))
+            if "Handling signal: usr2" not in srv.error_log():
+                return watch.v, "the master did not take the SIGUSR2", info
+            if not e4.alive(old):
+                return watch.v + [("live-master-exited-without-cause", "the master ended after a SIGUSR2 it could not carry out "
+                                   "(start directory gone): %s" % srv.error_log()[-300:])], None, info
+            time.sleep(0.15)
+            run.count("live_upgrade_attempts_without_start_dir")
+            if any(e["kind"] == "when_ready" and e["pid"] != old and e4.alive(e["pid"]) for e in srv.events()):
+                info["new_master_started_anyway"] = True
+            if not watch.settled(run, "live_pidfile_after_failed_upgrade"):
+                return [(m, t + " | the start directory %s had been %s before SIGUSR2; log: %s" % (
+                    start_dir, "removed" if sc["how"] == "rmdir" else "renamed",
+                    [ln for ln in srv.error_log().splitlines() if "ERROR" in ln][-2:])) for m, t in watch.v], None, info
+            now = srv.worker_pids(old)
+            if all(p in now and e4.alive(p) for p in before):
+                run.count("live_workers_untouched_by_failed_upgrade")
+            else:
+                watch.v.append(("live-failed-upgrade-stopped-running-workers",
+                                "SIGUSR2 with the start directory gone: only the forked child could fail, yet the running master %d "
+                                "lost its workers %s (now %s); log: %s" % (old, before, now, [
+                                    ln for ln in srv.error_log().splitlines() if "ERROR" in ln][-2:])))
+                return watch.v, None, info
+        else:
+            watch.event = "usr2"
+            srv.signal(signal.SIGUSR2)
+            new = find_new_master(e4, srv, old, set(before), timeout=20)
+            if new is None or not srv.wait_workers(2, 20, master=new):
+                return watch.v, "the upgrade did not produce a new master with workers: %s" % srv.error_log()[-300:], info
+            watch.new = info["new_master"] = new
+            watch.wait(lambda: read_file(pidfile + ".2") == b"%d\n" % new, 3)
+            d2 = read_file(pidfile + ".2")
+            if d2 != b"%d\n" % new and not watch.v:
+                watch.v.append(("live-pidfile2-wrong-content/usr2", "old master %d and new master %d are running; \"%s.2\" holds %r" % (
+                    old, new, os.path.basename(pidfile), d2)))
+            if watch.v or not watch.settled(run, "live_pidfile_after_usr2"):
+                return watch.v, None, info
+            # SIGHUP to the new master while the old one lives
+            watch.event = "hup-new-master"
+            w_new = srv.worker_pids(new)
+            srv.signal(signal.SIGHUP, new)
+            ok = watch.wait(lambda: not e4.alive(new) or (all_gone(e4, w_new) and srv.wait_workers(2, 0.05, master=new)), 15)
+            info["events"].append(("hup-new-master", bool(ok), "new master alive: %s" % e4.alive(new)))
+            if not ok:
+                return watch.v, "the new master neither reloaded nor exited within 15 s of SIGHUP", info
+            run.count("live_new_master_gave_up_on_hup" if not e4.alive(new) else "live_new_master_reloaded")
+            time.sleep(0.15)
+            if not watch.settled(run, "live_pidfile_after_hup_to_new_master"):
+                return watch.v, None, info
+            if e4.alive(new):
+                watch.event = "stop-new-master"
+                srv.signal(signal.SIGQUIT if sc.get("then") == "quit" else signal.SIGTERM, new)
+                if not watch.wait(lambda: not e4.alive(new), 12):
+                    return watch.v, "the new master did not exit within 12 s", info
+                time.sleep(0.15)
+            else:
+                watch.event = "new-master-gone"
+                # the old master reaps it and carries on alone
+                watch.wait(lambda: new not in e4.proc_table(), 5)
+            if not watch.settled(run, "live_pidfile_after_new_master_gone"):
+                return watch.v, None, info
+            info["polls_of_pidfile2"] = watch.polls2
+        reason = stop_and_check(run, e4, srv, watch, pidfile, info)
+        return watch.v, reason, info
+    finally:
+        srv.cleanup()
+
+
 EVENTS = ["ttou", "ttin", "hup", "kill", "second_instance"]
 
 
 def plan(run, tier, seed):
     run.require("live_pidfile_after_boot", "live_pidfile_after_ttou", "live_pidfile_after_hup", "live_pidfile_after_max_requests",
                 "live_pidfile_after_kill", "live_pidfile_after_timeout", "live_worker_left_through_python", "live_second_instance_refused",
-                "live_pidfile_removed_at_stop", "live_stale_pidfile_taken_over")
+                "live_pidfile_removed_at_stop", "live_stale_pidfile_taken_over",
+                # upgrade histories
+                "live_upgrade_attempts_without_start_dir", "live_pidfile_after_failed_upgrade",
+                "live_workers_untouched_by_failed_upgrade", "live_pidfile_after_usr2", "live_pidfile_after_hup_to_new_master",
+                "live_pidfile_after_new_master_gone")
     classes = ["sync", "gthread"] + (["gevent", "eventlet"] if tier == "thorough" else [])
     out = []
     for i, wc in enumerate(classes):
@@ -297,6 +479,15 @@ def plan(run, tier, seed):
     out.append({"kind": "takeover", "class": classes[seed % 2]})
     if tier == "thorough":
         out.append({"kind": "takeover", "class": classes[(seed + 1) % 2]})
+    # upgrade histories: one master each
+    if tier == "thorough":
+        for i, wc in enumerate(classes):
+            for how in ("rmdir", "rename"):
+                out.append({"kind": "upgrade", "history": "start-dir-gone", "class": wc, "how": how})
+            out.append({"kind": "upgrade", "history": "hup-new-master", "class": wc, "then": ("term", "quit")[(seed + i) % 2]})
+    else:
+        out.append({"kind": "upgrade", "history": "start-dir-gone", "class": classes[seed % 2], "how": ("rmdir", "rename")[(seed // 2) % 2]})
+        out.append({"kind": "upgrade", "history": "hup-new-master", "class": classes[(seed + 1) % 2], "then": ("term", "quit")[(seed // 2) % 2]})
     return [{"kind": "live", "scenario": dict(sc, idx=i), "seed": seed, "tier": tier} for i, sc in enumerate(out)]
 
 
@@ -308,7 +499,8 @@ def shard(run, sh):
         v, reason, info = scenario(run, e4, sc)
         if reason is None or v:
             break
-    run.case(("live", sc["kind"], sc["class"], str(sc.get("events")), bool(sc.get("max_requests"))))
+    what = [sc["history"], sc.get("how"), sc.get("then")] if sc["kind"] == "upgrade" else sc.get("events")
+    run.case(("live", sc["kind"], sc["class"], str(what), bool(sc.get("max_requests"))))
     run.count("live_scenarios")
     for mech, summary in v:
         run.violation(mech, summary + " | scenario=%s info=%s" % (sc, info), {"part": "live", "live": sc})
